@@ -105,6 +105,8 @@ def translate(row, sid, cfg=None):
             if r['hk'] in ('forward', 'expect'):
                 out.append(f"hStart {r['i']}")
                 fwd_inst[r['i']] = True
+        elif k == 'hSkip':
+            out.append(f"hSkip {r['x']} {r['b']} {r['e']} {r['h']}")
         elif k == 'hStart':
             out.append(f"hStart {r['i']}")
         elif k == 'unscheduledStart':
